@@ -1,50 +1,60 @@
 /-
 C15 — failures during optimisation are contained and reported.
-Property theorems only (helper lemmas: GlotaranProofs/Lemmas/C15.lean).
+Property theorems only (helper lemmas: GlotaranProofs/Lemmas/C15.lean, C15Params.lean).
 
 All statements are about `Glotaran.C15.optimizeSM`, the state machine of
-`optimize(scheme, verbose, raise_exception)`, for EVERY schedule of the optimiser (any number of
-objective calls at arbitrary parameter vectors `α`, any fault position, any return value of
-`least_squares`), every scheme description and every `sys.stdout` object.
+`optimize(scheme, verbose, raise_exception)` **interpreting the statement tables regenerated from
+the source** (GlotaranModel/Generated/C15.lean), for EVERY schedule of the optimiser (any number of
+objective calls at arbitrary vectors, any fault position, any return value of `least_squares`),
+every scheme description, every `sys.stdout` object and every interpretation `ops` of the
+parameter operations (`ParamOps`: how a vector is written into the parameter set, what a history
+record stores, how a record is mapped back).  Sections 1–6 are about control flow and hold for
+every `ops`; section 7 instantiates `ops` with C11's parameter model and is about the VALUES.
 
 `inject xs fin k msg` is "the run that evaluates at `xs`, then twice in `create_result`, with an
 exception `msg` injected at evaluation number `k`" — the quantifier of the property.
 -/
 import GlotaranProofs.Lemmas.C15
+import GlotaranProofs.Lemmas.C15Params
 namespace Glotaran.C15
 
-variable {α : Type}
+variable {V R P : Type}
 
 /-- the scheme passes the up-front validation and `p0` are its parameters -/
-def Accepted (s : Scheme α) (p0 : α) : Prop := documentedError s = none ∧ s.parameters = some p0
+def Accepted (s : Scheme P) (p0 : P) : Prop := documentedError s = none ∧ s.parameters = some p0
 
 /-- **Containment**, the full statement for one run `res` whose optimiser had accumulated the
-    history `hist` (initial record plus one record per returned evaluation) when it failed with
-    `msg`: an unsuccessful `Result` whose `termination_reason` is the error, whose parameters are
-    record `-2` of that history and have been evaluated without error, whose
-    `number_of_function_evaluations` is the number of records, whose history is `hist` plus the
-    re-evaluated record; exactly one warning carrying the error. -/
-def Contained (res : World α × Outcome α) (msg : Msg) (hist : List α) : Prop :=
-  ∃ r, res.2 = .result r ∧ r.success = false ∧ r.terminationReason = msg ∧
-    hist[hist.length - 2]? = some r.optimizedParameters ∧
+    history `hist` (initial record plus one record per returned evaluation) and held the parameter
+    set `cur` when it failed with `msg`: an unsuccessful `Result` whose `termination_reason` is the
+    error, whose parameters are record `-2` of that history mapped back into `cur`
+    (`set_from_history`, then refreshed by the re-evaluation) and have been evaluated without error,
+    whose `number_of_function_evaluations` is the number of records, whose history is `hist` plus the
+    re-evaluated record, whose additional penalties and data come from the restored parameters;
+    exactly one warning carrying the error. -/
+def Contained (ops : ParamOps V R P) (res : World P × Outcome R P) (msg : Msg) (hist : List R) (cur : P) :
+    Prop :=
+  ∃ r rec, res.2 = .result r ∧ r.success = false ∧ r.terminationReason = msg ∧
+    hist[hist.length - 2]? = some rec ∧
+    r.optimizedParameters = ops.refresh (ops.fromRow cur rec) ∧
     r.restoredRecord = some (hist.length - 2) ∧
     r.numberOfFunctionEvaluations = hist.length ∧
     r.optimizedParameters ∈ res.1.evaluatedOK ∧
-    r.parameterHistory = hist ++ [r.optimizedParameters] ∧
+    r.parameterHistory = hist ++ [ops.row r.optimizedParameters] ∧
+    r.penaltyOf = some (ops.fromRow cur rec) ∧ r.dataOf = some r.optimizedParameters ∧
     res.1.warnings = [failureWarning msg]
 
 /-- the optimizer object `Optimizer.__init__` builds for an accepted scheme -/
-private def o0 (p0 : α) (out : Handle) (v r : Bool) : Optimizer α :=
-  { parameters := p0, teeSaved := out, verbose := v, raiseException := r,
-    optimizationResult := none, terminationReason := "", history := [p0] }
+private def o0 (ops : ParamOps V R P) (p0 : P) (out : Handle) (v r : Bool) : Optimizer V R P :=
+  { parameters := ops.start p0, teeSaved := out, verbose := v, raiseException := r,
+    optimizationResult := none, terminationReason := "", history := [ops.row (ops.start p0)] }
 
-private theorem run_accepted (s : Scheme α) (p0 : α) (out : Handle) (v r : Bool) (sch : Schedule α)
-    (h : Accepted s p0) :
-    optimizeSM (World.fresh s out) v r sch =
-      match optimize (World.fresh s out) (o0 p0 out v r) sch with
+private theorem run_accepted (ops : ParamOps V R P) (s : Scheme P) (p0 : P) (out : Handle) (v r : Bool)
+    (sch : Schedule V) (h : Accepted s p0) :
+    optimizeSM ops (World.fresh s out) v r sch =
+      match optimize ops (World.fresh s out) (o0 ops p0 out v r) sch with
       | (w, _, some e) => (w, .exception e)
-      | (w, o, none) => createResult w o sch := by
-  obtain ⟨p, hp, hinit⟩ := init_ok (World.fresh s out) v r h.1
+      | (w, o, none) => createResult ops w o sch := by
+  obtain ⟨p, hp, hinit⟩ := initSpec_ok ops (World.fresh s out) v r h.1
   have : p = p0 := by
     have h2 := h.2
     have hp' : s.parameters = some p := hp
@@ -52,19 +62,20 @@ private theorem run_accepted (s : Scheme α) (p0 : α) (out : Handle) (v r : Boo
     exact (Option.some.inj hp').symm
   subst this
   unfold optimizeSM
-  rw [hinit]
+  rw [init_eq, hinit]
   rfl
 
 /-- `create_result` after a contained failure: the run is `Contained` w.r.t. the history so far -/
-private theorem contained_of_failure (w : World α) (o : Optimizer α) (sch : Schedule α) (msg : Msg)
+private theorem contained_of_failure (ops : ParamOps V R P) (w : World P) (o : Optimizer V R P)
+    (sch : Schedule V) (msg : Msg)
     (hnone : o.optimizationResult = none) (hlen : 2 ≤ o.history.length)
     (hp : sch.penaltyFault = none) (hf : sch.finalFault = none) (hd : sch.dataFault = none)
     (hw : w.warnings = [failureWarning msg]) (hreason : o.terminationReason = msg) :
-    Contained (createResult w o sch) msg o.history := by
-  obtain ⟨rv, hrv, hcr⟩ := createResult_failure w o sch hnone hlen hp hf hd
+    Contained ops (createResult ops w o sch) msg o.history o.parameters := by
+  obtain ⟨rec, hrec, hcr⟩ := createResult_failure ops w o sch hnone hlen hp hf hd
   rw [hcr]
-  refine ⟨_, rfl, ?_⟩
-  simp [hrv, hw, hreason]
+  refine ⟨_, rec, rfl, ?_⟩
+  simp [hrec, hw, hreason]
 
 /-! ### 1. faults inside the optimisation are contained -/
 
@@ -72,29 +83,34 @@ private theorem contained_of_failure (w : World α) (o : Optimizer α) (sch : Sc
     the next one raises `msg` (whatever would have come after, `post`, never happens), at least one
     call returned, and the evaluations `create_result` performs afterwards do not raise:
     the run is `Contained`. -/
-theorem fault_contained_split (s : Scheme α) (p0 : α) (out : Handle) (v : Bool) (sch : Schedule α)
-    (pre post : List (Call α)) (x : α) (msg : Msg)
+theorem fault_contained_split (ops : ParamOps V R P) (s : Scheme P) (p0 : P) (out : Handle) (v : Bool)
+    (sch : Schedule V) (pre post : List (Call V)) (x : V) (msg : Msg)
     (hs : Accepted s p0)
     (hcalls : sch.calls = pre ++ { x := x, fault := some msg } :: post)
     (hpre : ∀ c ∈ pre, c.fault = none) (hne : pre ≠ [])
     (hp : sch.penaltyFault = none) (hf : sch.finalFault = none) (hd : sch.dataFault = none) :
-    Contained (optimizeSM (World.fresh s out) v false sch) msg (p0 :: pre.map (·.x)) := by
-  rw [run_accepted s p0 out v false sch hs, optimize_fault _ _ sch pre post x msg hcalls hpre]
+    Contained ops (optimizeSM ops (World.fresh s out) v false sch) msg
+      (histOf ops p0 (pre.map (·.x))) (curOf ops p0 (pre.map (·.x)) x) := by
+  rw [run_accepted ops s p0 out v false sch hs, optimize_fault ops _ _ sch pre post x msg hcalls hpre]
   have hlen : pre.length ≠ 0 := by simpa using hne
   simp only [o0, Bool.false_eq_true, ↓reduceIte]
-  exact contained_of_failure _ _ sch msg rfl (by simp; omega) hp hf hd (by simp [World.fresh]) rfl
+  exact contained_of_failure ops _ _ sch msg rfl
+    (by simp [ParamOps.states_length]; omega) hp hf hd (by simp [World.fresh]) rfl
 
 /-- **Containment at an injected fault (partial).**  For every sequence `xs` of optimiser calls,
     every return value of `least_squares`, every fault position `k` with `2 ≤ k ≤ |xs|` — i.e. the
     fault hits one of the optimiser's own calls — `optimize(raise_exception=False)` returns the
-    contained `Result`, restored from record `k-2` of `initial :: xs`.
-    The hypothesis `k ≤ |xs|` cannot be dropped: see `fault_contained_counterexample`. -/
-theorem fault_contained_partial (s : Scheme α) (p0 : α) (out : Handle) (v : Bool) (xs : List α)
-    (fin : LsqEnd α) (k : Nat) (msg : Msg) (hs : Accepted s p0) (h2 : 2 ≤ k) (hk : k ≤ xs.length) :
-    Contained (optimizeSM (World.fresh s out) v false (inject xs fin k msg)) msg
-      (p0 :: xs.take (k - 1)) := by
-  obtain ⟨x, post, _, hsplit⟩ := injectCalls_split msg xs k (by omega) hk
-  have h := fault_contained_split s p0 out v (inject xs fin k msg)
+    contained `Result`, restored from record `k-2` of the history of the calls before the fault.
+    The hypothesis `k ≤ |xs|` cannot be dropped: see `fault_contained_counterexample`,
+    `fault_contained_iff`. -/
+theorem fault_contained_partial (ops : ParamOps V R P) (s : Scheme P) (p0 : P) (out : Handle) (v : Bool)
+    (xs : List V) (fin : LsqEnd V) (k : Nat) (msg : Msg) (hs : Accepted s p0) (h2 : 2 ≤ k)
+    (hk : k ≤ xs.length) :
+    ∃ x, xs[k - 1]? = some x ∧
+      Contained ops (optimizeSM ops (World.fresh s out) v false (inject xs fin k msg)) msg
+        (histOf ops p0 (xs.take (k - 1))) (curOf ops p0 (xs.take (k - 1)) x) := by
+  obtain ⟨x, post, hx, hsplit⟩ := injectCalls_split msg xs k (by omega) hk
+  have h := fault_contained_split ops s p0 out v (inject xs fin k msg)
     ((xs.take (k - 1)).map (fun x => { x := x, fault := none })) post x msg hs
     (by simpa [inject] using hsplit)
     (by intro c hc; obtain ⟨y, _, rfl⟩ := List.mem_map.1 hc; rfl)
@@ -104,20 +120,21 @@ theorem fault_contained_partial (s : Scheme α) (p0 : α) (out : Handle) (v : Bo
       simp only [List.length_map, List.length_take, List.length_nil] at this
       omega)
     (by simp [inject]; omega) (by simp [inject]; omega) (by simp [inject])
+  refine ⟨x, hx, ?_⟩
   simpa [List.map_map, Function.comp_def] using h
+
+private def sCE : Scheme Nat := ⟨[], some 0, "TrustRegionReflection", [⟨none, "variable_projection"⟩]⟩
 
 /-- The unrestricted statement (`2 ≤ k`, any position of the fault-free run) is **false** on the
     model and on the code (D16, replayed by the harness on every run): a fault injected into the
     first evaluation `create_result` performs (`k = |xs| + 1`) escapes as the raw exception. -/
 theorem fault_contained_counterexample :
-    ¬ Contained
-        (optimizeSM (World.fresh ⟨[], some 0, "TrustRegionReflection", [⟨none, "variable_projection"⟩]⟩
-            (.user 7)) false false
+    ¬ ∃ x, Contained (ParamOps.plain Nat)
+        (optimizeSM (ParamOps.plain Nat) (World.fresh sCE (.user 7)) false false
           (inject [0, 1] (.returns ⟨1, 2, "`gtol` termination condition is satisfied."⟩) 3 "boom"))
-        "boom" (0 :: [0, 1].take 2) := by
-  intro ⟨r, h, _⟩
-  have : (optimizeSM (World.fresh ⟨[], some 0, "TrustRegionReflection", [⟨none, "variable_projection"⟩]⟩
-            (.user 7)) false false
+        "boom" (histOf (ParamOps.plain Nat) 0 ([0, 1].take 2)) x := by
+  intro ⟨x, r, rec, h, _⟩
+  have : (optimizeSM (ParamOps.plain Nat) (World.fresh sCE (.user 7)) false false
           (inject [0, 1] (.returns ⟨1, 2, "`gtol` termination condition is satisfied."⟩) 3 "boom")).2
       = .exception (.raised "boom") := by decide
   rw [this] at h
@@ -126,9 +143,11 @@ theorem fault_contained_counterexample :
 /-- the same for the last evaluation (`k = |xs| + 2`), and for a failing re-evaluation of the
     restored record (two faults): the exception escapes -/
 theorem fault_escapes_from_create_result :
-    (optimizeSM (World.fresh ⟨[], some 0, "Dogbox", [⟨none, "variable_projection"⟩]⟩ (.user 7)) true false
+    (optimizeSM (ParamOps.plain Nat)
+        (World.fresh ⟨[], some 0, "Dogbox", [⟨none, "variable_projection"⟩]⟩ (.user 7)) true false
         (inject [0, 1] (.returns ⟨1, 2, "done"⟩) 4 "boom")).2 = .exception (.raised "boom") ∧
-    (optimizeSM (World.fresh ⟨[], some 0, "Dogbox", [⟨none, "variable_projection"⟩]⟩ (.user 7)) true false
+    (optimizeSM (ParamOps.plain Nat)
+        (World.fresh ⟨[], some 0, "Dogbox", [⟨none, "variable_projection"⟩]⟩ (.user 7)) true false
         { calls := [⟨0, none⟩, ⟨1, some "first"⟩], finish := .returns ⟨1, 2, "done"⟩,
           penaltyFault := some "second", finalFault := none, covarianceFault := none,
           dataFault := none }).2 = .exception (.raised "second") := by
@@ -137,80 +156,290 @@ theorem fault_escapes_from_create_result :
 /-- **Fault at the first evaluation.**  `raise_exception=False` and the very first objective call
     raises: `InitialParameterError`, after one warning carrying the error and exactly one
     evaluation. -/
-theorem fault_at_first (s : Scheme α) (p0 : α) (out : Handle) (v : Bool) (sch : Schedule α)
-    (post : List (Call α)) (x : α) (msg : Msg) (hs : Accepted s p0)
+theorem fault_at_first (ops : ParamOps V R P) (s : Scheme P) (p0 : P) (out : Handle) (v : Bool)
+    (sch : Schedule V) (post : List (Call V)) (x : V) (msg : Msg) (hs : Accepted s p0)
     (hcalls : sch.calls = { x := x, fault := some msg } :: post) :
-    (optimizeSM (World.fresh s out) v false sch).2 = .exception .initialParameter ∧
-    (optimizeSM (World.fresh s out) v false sch).1.warnings = [failureWarning msg] ∧
-    (optimizeSM (World.fresh s out) v false sch).1.evaluations = 1 := by
-  rw [run_accepted s p0 out v false sch hs, optimize_fault _ _ sch [] post x msg (by simpa using hcalls) (by simp)]
-  simp [o0, createResult, World.fresh]
+    (optimizeSM ops (World.fresh s out) v false sch).2 = .exception .initialParameter ∧
+    (optimizeSM ops (World.fresh s out) v false sch).1.warnings = [failureWarning msg] ∧
+    (optimizeSM ops (World.fresh s out) v false sch).1.evaluations = 1 := by
+  rw [run_accepted ops s p0 out v false sch hs,
+    optimize_fault ops _ _ sch [] post x msg (by simpa using hcalls) (by simp)]
+  simp only [o0, Bool.false_eq_true, ↓reduceIte]
+  refine ⟨createResult_single ops _ _ sch (by simp [ParamOps.states]), ?_, ?_⟩
+  · rw [createResult_eq ops _ _ sch (by simp [ParamOps.states])]
+    simp [createResultSpec, ParamOps.states, World.fresh]
+  · rw [createResult_eq ops _ _ sch (by simp [ParamOps.states])]
+    simp [createResultSpec, ParamOps.states, World.fresh]
 
 /-- `fault_at_first` for the injected fault `k = 1` -/
-theorem fault_at_first_injected (s : Scheme α) (p0 : α) (out : Handle) (v : Bool) (x : α) (xs : List α)
-    (fin : LsqEnd α) (msg : Msg) (hs : Accepted s p0) :
-    (optimizeSM (World.fresh s out) v false (inject (x :: xs) fin 1 msg)).2
+theorem fault_at_first_injected (ops : ParamOps V R P) (s : Scheme P) (p0 : P) (out : Handle) (v : Bool)
+    (x : V) (xs : List V) (fin : LsqEnd V) (msg : Msg) (hs : Accepted s p0) :
+    (optimizeSM ops (World.fresh s out) v false (inject (x :: xs) fin 1 msg)).2
       = .exception .initialParameter :=
-  (fault_at_first s p0 out v (inject (x :: xs) fin 1 msg) (injectCalls xs 0 msg) x msg hs
+  (fault_at_first ops s p0 out v (inject (x :: xs) fin 1 msg) (injectCalls xs 0 msg) x msg hs
     (by simp [inject, injectCalls])).1
 
 /-- **`raise_exception=True` lets the original exception propagate unchanged**, wherever the
     optimiser's call sequence faults (first call included) — no warning, nothing else evaluated. -/
-theorem raise_propagates (s : Scheme α) (p0 : α) (out : Handle) (v : Bool) (sch : Schedule α)
-    (pre post : List (Call α)) (x : α) (msg : Msg) (hs : Accepted s p0)
+theorem raise_propagates (ops : ParamOps V R P) (s : Scheme P) (p0 : P) (out : Handle) (v : Bool)
+    (sch : Schedule V) (pre post : List (Call V)) (x : V) (msg : Msg) (hs : Accepted s p0)
     (hcalls : sch.calls = pre ++ { x := x, fault := some msg } :: post)
     (hpre : ∀ c ∈ pre, c.fault = none) :
-    (optimizeSM (World.fresh s out) v true sch).2 = .exception (.raised msg) ∧
-    (optimizeSM (World.fresh s out) v true sch).1.warnings = [] ∧
-    (optimizeSM (World.fresh s out) v true sch).1.evaluations = pre.length + 1 := by
-  rw [run_accepted s p0 out v true sch hs, optimize_fault _ _ sch pre post x msg hcalls hpre]
+    (optimizeSM ops (World.fresh s out) v true sch).2 = .exception (.raised msg) ∧
+    (optimizeSM ops (World.fresh s out) v true sch).1.warnings = [] ∧
+    (optimizeSM ops (World.fresh s out) v true sch).1.evaluations = pre.length + 1 := by
+  rw [run_accepted ops s p0 out v true sch hs, optimize_fault ops _ _ sch pre post x msg hcalls hpre]
   simp [o0, World.fresh]
 
 /-- the same when `least_squares` itself raises after all its calls returned -/
-theorem raise_propagates_lsq (s : Scheme α) (p0 : α) (out : Handle) (v : Bool) (sch : Schedule α)
-    (msg : Msg) (hs : Accepted s p0) (hok : ∀ c ∈ sch.calls, c.fault = none)
+theorem raise_propagates_lsq (ops : ParamOps V R P) (s : Scheme P) (p0 : P) (out : Handle) (v : Bool)
+    (sch : Schedule V) (msg : Msg) (hs : Accepted s p0) (hok : ∀ c ∈ sch.calls, c.fault = none)
     (hfin : sch.finish = .raises msg) :
-    (optimizeSM (World.fresh s out) v true sch).2 = .exception (.raised msg) ∧
-    (optimizeSM (World.fresh s out) v true sch).1.warnings = [] := by
-  rw [run_accepted s p0 out v true sch hs, optimize_raises _ _ sch msg hok hfin]
+    (optimizeSM ops (World.fresh s out) v true sch).2 = .exception (.raised msg) ∧
+    (optimizeSM ops (World.fresh s out) v true sch).1.warnings = [] := by
+  rw [run_accepted ops s p0 out v true sch hs, optimize_raises ops _ _ sch msg hok hfin]
   simp [o0, World.fresh]
 
 /-- **A failure of `least_squares` itself** (e.g. "Residuals are not finite in the initial point")
     after at least one returned evaluation is contained in the same way. -/
-theorem lsq_failure_contained (s : Scheme α) (p0 : α) (out : Handle) (v : Bool) (sch : Schedule α)
-    (msg : Msg) (hs : Accepted s p0) (hok : ∀ c ∈ sch.calls, c.fault = none) (hne : sch.calls ≠ [])
-    (hfin : sch.finish = .raises msg)
+theorem lsq_failure_contained (ops : ParamOps V R P) (s : Scheme P) (p0 : P) (out : Handle) (v : Bool)
+    (sch : Schedule V) (msg : Msg) (hs : Accepted s p0) (hok : ∀ c ∈ sch.calls, c.fault = none)
+    (hne : sch.calls ≠ []) (hfin : sch.finish = .raises msg)
     (hp : sch.penaltyFault = none) (hf : sch.finalFault = none) (hd : sch.dataFault = none) :
-    Contained (optimizeSM (World.fresh s out) v false sch) msg (p0 :: sch.calls.map (·.x)) := by
-  rw [run_accepted s p0 out v false sch hs, optimize_raises _ _ sch msg hok hfin]
+    Contained ops (optimizeSM ops (World.fresh s out) v false sch) msg
+      (histOf ops p0 (sch.calls.map (·.x))) (ops.last (ops.start p0) (sch.calls.map (·.x))) := by
+  rw [run_accepted ops s p0 out v false sch hs, optimize_raises ops _ _ sch msg hok hfin]
   have hlen : sch.calls.length ≠ 0 := by simpa using hne
   simp only [o0, Bool.false_eq_true, ↓reduceIte]
-  exact contained_of_failure _ _ sch msg rfl (by simp; omega) hp hf hd (by simp [World.fresh]) rfl
+  exact contained_of_failure ops _ _ sch msg rfl
+    (by simp [ParamOps.states_length]; omega) hp hf hd (by simp [World.fresh]) rfl
 
-/-- **The fault-free run is reported as a success**: parameters, message and `nfev` are those
-    `least_squares` returned, no warning, the history is the initial record, one record per call and
-    the record of the final evaluation. -/
-theorem success_reported (s : Scheme α) (p0 : α) (out : Handle) (v r : Bool) (sch : Schedule α)
-    (res : LsqResult α) (hs : Accepted s p0) (hok : ∀ c ∈ sch.calls, c.fault = none)
+/-- **The fault-free run is reported as a success**: the parameters are the optimizer's parameter set
+    with `least_squares`' solution written into it, message and `nfev` are those `least_squares`
+    returned, no warning, the history is the initial record, one record per call and the record of
+    the final evaluation. -/
+theorem success_reported (ops : ParamOps V R P) (s : Scheme P) (p0 : P) (out : Handle) (v r : Bool)
+    (sch : Schedule V) (res : LsqResult V) (hs : Accepted s p0) (hok : ∀ c ∈ sch.calls, c.fault = none)
     (hne : sch.calls ≠ []) (hfin : sch.finish = .returns res)
     (hp : sch.penaltyFault = none) (hf : sch.finalFault = none) (hc : sch.covarianceFault = none)
     (hd : sch.dataFault = none) :
-    ∃ rr, (optimizeSM (World.fresh s out) v r sch).2 = .result rr ∧ rr.success = true ∧
-      rr.terminationReason = res.message ∧ rr.optimizedParameters = res.x ∧
+    ∃ rr, (optimizeSM ops (World.fresh s out) v r sch).2 = .result rr ∧ rr.success = true ∧
+      rr.terminationReason = res.message ∧
+      rr.optimizedParameters =
+        ops.refresh (ops.setFree (ops.last (ops.start p0) (sch.calls.map (·.x))) res.x) ∧
       rr.numberOfFunctionEvaluations = res.nfev ∧ rr.restoredRecord = none ∧
-      rr.parameterHistory = p0 :: sch.calls.map (·.x) ++ [res.x] ∧
-      (optimizeSM (World.fresh s out) v r sch).1.warnings = [] := by
-  rw [run_accepted s p0 out v r sch hs, optimize_returns _ _ sch res hok hfin]
+      rr.parameterHistory = histOf ops p0 (sch.calls.map (·.x)) ++ [ops.row rr.optimizedParameters] ∧
+      (optimizeSM ops (World.fresh s out) v r sch).1.warnings = [] := by
+  rw [run_accepted ops s p0 out v r sch hs, optimize_returns ops _ _ sch res hok hfin]
   have hlen : sch.calls.length ≠ 0 := by simpa using hne
   simp only [o0]
-  rw [createResult_success _ _ sch res rfl (by simp; omega) hp hf hc hd]
-  exact ⟨_, rfl, by simp [World.fresh]⟩
+  rw [createResult_success ops _ _ sch res rfl (by simp [ParamOps.states_length]; omega) hp hf hc hd]
+  exact ⟨_, rfl, by simp [World.fresh, histOf]⟩
 
-/-! ### 2. `sys.stdout`, the caller's scheme -/
+/-! ### 2. exactly which faults are contained (D16 and the SVD escape, characterised) -/
 
-private theorem init_teeSaved (w : World α) (v r : Bool) (o : Optimizer α) (h : init w v r = .ok o) :
-    o.teeSaved = w.stdout := by
-  unfold init at h
+/-- `least_squares` returned: every objective call returned and so did the optimiser -/
+def lsqReturns (sch : Schedule V) : Bool :=
+  sch.calls.all (fun c => c.fault.isNone) &&
+    (match sch.finish with
+     | .returns _ => true
+     | .raises _ => false)
+
+/-- `create_result` on an optimizer whose history has one record per call of `calls` besides the
+    initial one -/
+private theorem classify_after (ops : ParamOps V R P) (w : World P) (o : Optimizer V R P) (sch : Schedule V)
+    (b : Bool) (hb : o.optimizationResult.isSome = b) (calls : List (Call V))
+    (hlen : o.history.length = calls.length + 1) :
+    (calls = [] → (createResult ops w o sch).2 = .exception .initialParameter) ∧
+    (calls ≠ [] → ∀ m, firstLate sch b = some m → (createResult ops w o sch).2 = .exception (.raised m)) ∧
+    (calls ≠ [] → firstLate sch b = none →
+      ∃ r, (createResult ops w o sch).2 = .result r ∧ r.success = b) := by
+  subst hb
+  refine ⟨?_, ?_, ?_⟩
+  · intro h
+    exact createResult_single ops w o sch (by simp [hlen, h])
+  · intro h
+    have : calls.length ≠ 0 := by simpa using h
+    exact (createResult_classified ops w o sch (by omega)).1
+  · intro h
+    have : calls.length ≠ 0 := by simpa using h
+    exact (createResult_classified ops w o sch (by omega)).2
+
+/-- **The outcome of `optimize(raise_exception=False)`, for every schedule.**
+    * No objective call returned before the optimisation ended (first call raised, or there was
+      none): `InitialParameterError`.
+    * Otherwise, if something raises inside `create_result` — numpy's SVD in the covariance
+      computation (only after `least_squares` returned), the re-evaluation `calculate_penalty()`, the
+      final evaluation, the construction of the result data; `msg` the first of them in execution
+      order — that exception **escapes unchanged** (D16; the SVD escape on non-finite Jacobians).
+    * Otherwise a `Result` whose `success` says whether `least_squares` returned.
+    So with `raise_exception=False` the only exceptions that can leave `optimize()` of an accepted
+    scheme are `InitialParameterError` and the ones raised inside `create_result`. -/
+theorem outcome_classified (ops : ParamOps V R P) (s : Scheme P) (p0 : P) (out : Handle) (v : Bool)
+    (sch : Schedule V) (hs : Accepted s p0) :
+    (okPrefix sch.calls = [] →
+      (optimizeSM ops (World.fresh s out) v false sch).2 = .exception .initialParameter) ∧
+    (okPrefix sch.calls ≠ [] → ∀ m, firstLate sch (lsqReturns sch) = some m →
+      (optimizeSM ops (World.fresh s out) v false sch).2 = .exception (.raised m)) ∧
+    (okPrefix sch.calls ≠ [] → firstLate sch (lsqReturns sch) = none →
+      ∃ r, (optimizeSM ops (World.fresh s out) v false sch).2 = .result r ∧ r.success = lsqReturns sch) := by
+  rw [run_accepted ops s p0 out v false sch hs]
+  rcases calls_split sch.calls with hok | ⟨pre, x, m, post, hsplit, hpre⟩
+  · -- every call returns
+    rw [okPrefix_all sch.calls hok]
+    have hall : sch.calls.all (fun c => c.fault.isNone) = true := by
+      simp only [List.all_eq_true]
+      intro c hc
+      simp [hok c hc]
+    cases hfin : sch.finish with
+    | returns res =>
+      rw [optimize_returns ops _ _ sch res hok hfin]
+      simp only [o0, lsqReturns, hall, hfin, Bool.and_self]
+      exact classify_after ops _ _ sch true rfl sch.calls (by simp [ParamOps.states_length])
+    | raises mm =>
+      rw [optimize_raises ops _ _ sch mm hok hfin]
+      simp only [o0, lsqReturns, hall, hfin, Bool.and_false, Bool.false_eq_true, ↓reduceIte]
+      exact classify_after ops _ _ sch false rfl sch.calls (by simp [ParamOps.states_length])
+  · -- the call after `pre` raises
+    have hall : sch.calls.all (fun c => c.fault.isNone) = false := by
+      rw [hsplit]
+      simp
+    rw [optimize_fault ops _ _ sch pre post x m hsplit hpre]
+    simp only [o0, lsqReturns, hall, Bool.false_and, Bool.false_eq_true, ↓reduceIte]
+    rw [hsplit, okPrefix_split pre post x m hpre]
+    exact classify_after ops _ _ sch false rfl pre (by simp [ParamOps.states_length])
+
+/-- **`optimize(raise_exception=False)` returns a `Result` iff** at least one objective call
+    returned **and** nothing raises inside `create_result`. -/
+theorem result_iff (ops : ParamOps V R P) (s : Scheme P) (p0 : P) (out : Handle) (v : Bool)
+    (sch : Schedule V) (hs : Accepted s p0) :
+    (∃ r, (optimizeSM ops (World.fresh s out) v false sch).2 = .result r) ↔
+      (okPrefix sch.calls ≠ [] ∧ firstLate sch (lsqReturns sch) = none) := by
+  obtain ⟨h1, h2, h3⟩ := outcome_classified ops s p0 out v sch hs
+  constructor
+  · rintro ⟨r, hr⟩
+    by_cases hne : okPrefix sch.calls = []
+    · rw [h1 hne] at hr; cases hr
+    · refine ⟨hne, ?_⟩
+      cases hl : firstLate sch (lsqReturns sch) with
+      | none => rfl
+      | some m => rw [h2 hne m hl] at hr; cases hr
+  · rintro ⟨hne, hl⟩
+    obtain ⟨r, hr, _⟩ := h3 hne hl
+    exact ⟨r, hr⟩
+
+/-- **The SVD failure on non-finite numbers escapes**: `least_squares` returned (every call
+    returned, at least one), and `calculate_covariance_matrix_and_standard_errors` raises `m`:
+    `optimize(raise_exception=False)` raises `m` — recorded finding (same missing containment as D16). -/
+theorem covariance_failure_escapes (ops : ParamOps V R P) (s : Scheme P) (p0 : P) (out : Handle) (v : Bool)
+    (sch : Schedule V) (res : LsqResult V) (m : Msg) (hs : Accepted s p0)
+    (hok : ∀ c ∈ sch.calls, c.fault = none) (hne : sch.calls ≠ []) (hfin : sch.finish = .returns res)
+    (hc : sch.covarianceFault = some m) :
+    (optimizeSM ops (World.fresh s out) v false sch).2 = .exception (.raised m) := by
+  refine (outcome_classified ops s p0 out v sch hs).2.1 (by rwa [okPrefix_all sch.calls hok]) m ?_
+  have hall : sch.calls.all (fun c => c.fault.isNone) = true := by
+    simp only [List.all_eq_true]
+    intro c hc'
+    simp [hok c hc']
+  simp [firstLate, lsqReturns, hall, hfin, hc]
+
+private theorem injectCalls_okPrefix (msg : Msg) (xs : List V) (k : Nat) :
+    (okPrefix (injectCalls xs k msg)).length = if 1 ≤ k ∧ k ≤ xs.length then k - 1 else xs.length := by
+  by_cases h : 1 ≤ k ∧ k ≤ xs.length
+  · obtain ⟨x, post, _, hsplit⟩ := injectCalls_split msg xs k h.1 h.2
+    rw [hsplit, okPrefix_split _ post x msg
+      (by intro c hc; obtain ⟨y, _, rfl⟩ := List.mem_map.1 hc; rfl)]
+    simp only [List.length_map, List.length_take, h, and_self, ↓reduceIte]
+    omega
+  · rw [injectCalls_none msg xs k (by omega), okPrefix_all _
+      (by intro c hc; obtain ⟨y, _, rfl⟩ := List.mem_map.1 hc; rfl)]
+    simp [h]
+
+private theorem inject_lsqReturns_false (xs : List V) (fin : LsqEnd V) (k : Nat) (msg : Msg)
+    (h1 : 1 ≤ k) (hk : k ≤ xs.length) : lsqReturns (inject xs fin k msg) = false := by
+  obtain ⟨x, post, _, hsplit⟩ := injectCalls_split msg xs k h1 hk
+  simp [lsqReturns, inject, hsplit]
+
+/-- **D16 as a characterisation.**  A fault injected at evaluation `k` of the fault-free run
+    (`1 ≤ k ≤ |xs| + 2`: the optimiser's `|xs|` calls, then the two evaluations of `create_result`)
+    with `raise_exception=False` is contained — `optimize()` returns a `Result` — **iff** the faulting
+    evaluation is one of the optimiser's own calls and not the first: `2 ≤ k ≤ |xs|`
+    (and then the run is `Contained`: `fault_contained_partial`). -/
+theorem fault_contained_iff (ops : ParamOps V R P) (s : Scheme P) (p0 : P) (out : Handle) (v : Bool)
+    (xs : List V) (fin : LsqEnd V) (k : Nat) (msg : Msg) (hs : Accepted s p0)
+    (h1 : 1 ≤ k) (hk : k ≤ xs.length + 2) :
+    (∃ r, (optimizeSM ops (World.fresh s out) v false (inject xs fin k msg)).2 = .result r) ↔
+      (2 ≤ k ∧ k ≤ xs.length) := by
+  rw [result_iff ops s p0 out v _ hs]
+  have hlen := injectCalls_okPrefix msg xs k
+  constructor
+  · rintro ⟨hne, hl⟩
+    have hne' : (okPrefix (injectCalls xs k msg)).length ≠ 0 := by
+      intro h0; exact hne (List.length_eq_zero_iff.1 h0)
+    rw [hlen] at hne'
+    by_cases hin : 1 ≤ k ∧ k ≤ xs.length
+    · simp only [hin, and_self, ↓reduceIte] at hne'
+      exact ⟨by omega, hin.2⟩
+    · -- the fault is in one of the two evaluations of `create_result`: it is the first late fault
+      exfalso
+      have hk' : k = xs.length + 1 ∨ k = xs.length + 2 := by omega
+      rcases hk' with rfl | rfl
+      · cases hb : lsqReturns (inject xs fin (xs.length + 1) msg) <;>
+          simp [firstLate, inject] at hl
+      · cases hb : lsqReturns (inject xs fin (xs.length + 2) msg) <;>
+          simp [firstLate, inject] at hl
+  · rintro ⟨h2, hk2⟩
+    refine ⟨?_, ?_⟩
+    · intro h0
+      have := congrArg List.length h0
+      rw [show (inject xs fin k msg).calls = injectCalls xs k msg from rfl, hlen] at this
+      simp only [show 1 ≤ k ∧ k ≤ xs.length from ⟨h1, hk2⟩, and_self, ↓reduceIte, List.length_nil] at this
+      omega
+    · rw [inject_lsqReturns_false xs fin k msg h1 hk2]
+      have e1 : k ≠ xs.length + 1 := by omega
+      have e2 : k ≠ xs.length + 2 := by omega
+      simp [firstLate, inject, e1, e2]
+
+/-- …and **which exception escapes otherwise**: `InitialParameterError` when no evaluation had
+    returned (`k = 1`, or the optimiser made no call at all), the original exception `msg`
+    unchanged when the fault hits one of the two evaluations of `create_result`. -/
+theorem fault_escape_which (ops : ParamOps V R P) (s : Scheme P) (p0 : P) (out : Handle) (v : Bool)
+    (xs : List V) (fin : LsqEnd V) (k : Nat) (msg : Msg) (hs : Accepted s p0)
+    (h1 : 1 ≤ k) (hk : k ≤ xs.length + 2) (hnot : ¬ (2 ≤ k ∧ k ≤ xs.length)) :
+    (optimizeSM ops (World.fresh s out) v false (inject xs fin k msg)).2 =
+      .exception (if k = 1 ∨ xs = [] then .initialParameter else .raised msg) := by
+  obtain ⟨c1, c2, _⟩ := outcome_classified ops s p0 out v (inject xs fin k msg) hs
+  have hlen := injectCalls_okPrefix msg xs k
+  by_cases hini : k = 1 ∨ xs = []
+  · simp only [hini, ↓reduceIte]
+    apply c1
+    apply List.length_eq_zero_iff.1
+    rw [show (inject xs fin k msg).calls = injectCalls xs k msg from rfl, hlen]
+    rcases hini with rfl | rfl
+    · split <;> simp_all
+    · simp
+      omega
+  · simp only [hini, ↓reduceIte]
+    have hx : xs ≠ [] := fun h => hini (Or.inr h)
+    have hxl : xs.length ≠ 0 := by simpa using hx
+    have hk1 : k ≠ 1 := fun h => hini (Or.inl h)
+    have hout : ¬ (1 ≤ k ∧ k ≤ xs.length) := by omega
+    apply c2
+    · intro h0
+      have := congrArg List.length h0
+      rw [show (inject xs fin k msg).calls = injectCalls xs k msg from rfl, hlen] at this
+      simp only [hout, ↓reduceIte, List.length_nil] at this
+      exact hxl this
+    · have hk' : k = xs.length + 1 ∨ k = xs.length + 2 := by omega
+      rcases hk' with rfl | rfl
+      · cases hb : lsqReturns (inject xs fin (xs.length + 1) msg) <;> simp [firstLate, inject]
+      · cases hb : lsqReturns (inject xs fin (xs.length + 2) msg) <;> simp [firstLate, inject]
+
+/-! ### 3. `sys.stdout`, the caller's scheme -/
+
+private theorem initSpec_teeSaved (ops : ParamOps V R P) (w : World P) (v r : Bool) (o : Optimizer V R P)
+    (h : initSpec ops w v r = .ok o) : o.teeSaved = w.stdout := by
+  unfold initSpec at h
   split at h
   · cases h
   · split at h
@@ -221,69 +450,134 @@ private theorem init_teeSaved (w : World α) (v r : Bool) (o : Optimizer α) (h 
         · cases h
         · cases h; rfl
 
+private theorem createResult_frame' (ops : ParamOps V R P) (w : World P) (o : Optimizer V R P)
+    (sch : Schedule V) (h0 : o.history.length ≠ 0) :
+    (createResult ops w o sch).1.stdout = w.stdout ∧ (createResult ops w o sch).1.scheme = w.scheme := by
+  rw [createResult_eq ops w o sch h0]
+  exact createResultSpec_frame ops w o sch
+
+/-- the history is never empty once the optimizer exists -/
+private theorem initSpec_hist_ne (ops : ParamOps V R P) (w : World P) (v r : Bool) (o : Optimizer V R P)
+    (h : initSpec ops w v r = .ok o) : o.history.length ≠ 0 := by
+  unfold initSpec at h
+  split at h
+  · cases h
+  · split at h
+    · cases h
+    · split at h
+      · cases h
+      · split at h
+        · cases h
+        · cases h
+          simp
+
+/-- `HistInv` keeps the history non-empty -/
+private theorem hist_ne (ops : ParamOps V R P) (p0 : P) (w : World P) (o : Optimizer V R P)
+    (h : HistInv ops p0 w o) : o.history.length ≠ 0 := by
+  unfold HistInv at h
+  simp [h]
+
+/-- `optimize` only appends to the history -/
+private theorem optimize_hist_ne (ops : ParamOps V R P) (w : World P) (o : Optimizer V R P) (sch : Schedule V)
+    (h : o.history.length ≠ 0) : (optimize ops w o sch).2.1.history.length ≠ 0 := by
+  rw [optimize_eq]
+  have key : ∀ (calls : List (Call V)) (w : World P) (o : Optimizer V R P), o.history.length ≠ 0 →
+      (leastSquares ops w o calls sch.finish).2.1.history.length ≠ 0 := by
+    intro calls
+    induction calls with
+    | nil => intro w o h; cases sch.finish <;> simpa [leastSquares] using h
+    | cons c cs ih =>
+      intro w o h
+      cases hf : c.fault with
+      | some m => simpa [leastSquares, objectiveSpec, calculatePenaltySpec, hf] using h
+      | none =>
+        simp only [leastSquares, objective_eq, objectiveSpec, calculatePenaltySpec, hf]
+        exact ih _ _ (by simp)
+  have := key sch.calls { w with stdout := Handle.tee } o h
+  rcases hls : leastSquares ops { w with stdout := Handle.tee } o sch.calls sch.finish with ⟨w', o', r⟩
+  rw [hls] at this
+  simp only [optimizeSpec, hls]
+  cases r with
+  | ok res => simpa using this
+  | error e =>
+    simp only
+    split <;> simpa using this
+
 /-- **`sys.stdout` is restored on every exit** (rejected scheme, propagated exception,
     `InitialParameterError`, exception escaping from `create_result`, `Result`): for every initial
     world, schedule and flag combination the final `sys.stdout` is the initial object. -/
-theorem stdout_restored (w : World α) (v r : Bool) (sch : Schedule α) :
-    (optimizeSM w v r sch).1.stdout = w.stdout := by
-  cases hi : init w v r with
-  | error e => simp [optimizeSM, hi]
+theorem stdout_restored (ops : ParamOps V R P) (w : World P) (v r : Bool) (sch : Schedule V) :
+    (optimizeSM ops w v r sch).1.stdout = w.stdout := by
+  unfold optimizeSM
+  rw [init_eq]
+  cases hi : initSpec ops w v r with
+  | error e => rfl
   | ok o =>
-    have ht := init_teeSaved w v r o hi
-    have h1 := optimize_frame w o sch
-    rcases ho : optimize w o sch with ⟨w1, o1, e⟩
-    rw [ho] at h1
+    have ht := initSpec_teeSaved ops w v r o hi
+    have h1 := optimize_frame ops w o sch
+    have hne := optimize_hist_ne ops w o sch (initSpec_hist_ne ops w v r o hi)
+    rcases ho : optimize ops w o sch with ⟨w1, o1, e⟩
+    rw [ho] at h1 hne
     cases e with
     | some e =>
-      simp only [optimizeSM, hi, ho]
+      simp only [ho]
       simpa [ht] using h1.1
     | none =>
-      simp only [optimizeSM, hi, ho]
-      rw [(createResult_frame w1 o1 sch).1]
+      simp only [ho]
+      rw [(createResult_frame' ops w1 o1 sch hne).1]
       simpa [ht] using h1.1
 
-/-- while `least_squares` runs, `sys.stdout` *is* the tee (so `stdout_restored` is not vacuous) -/
-theorem stdout_is_tee_during_optimisation (w : World α) (o : Optimizer α) (calls : List (Call α))
-    (fin : LsqEnd α) :
-    (leastSquares { w with stdout := Handle.tee } o calls fin).1.stdout = Handle.tee :=
-  (leastSquares_frame fin calls { w with stdout := Handle.tee } o).1
+/-- while `least_squares` runs, `sys.stdout` *is* the tee (so `stdout_restored` is not vacuous):
+    the regenerated table says that the `try` is the body of `with self._tee:`, and no objective call
+    changes `sys.stdout` -/
+theorem stdout_is_tee_during_optimisation (ops : ParamOps V R P) (w : World P) (o : Optimizer V R P)
+    (calls : List (Call V)) (fin : LsqEnd V) :
+    Generated.optimizeTable.teeWrapsTry = true ∧
+    Generated.optimizeTable.tryBody.head? = some .leastSquares ∧
+    (leastSquares ops { w with stdout := Handle.tee } o calls fin).1.stdout = Handle.tee :=
+  ⟨rfl, rfl, (leastSquares_frame ops fin calls { w with stdout := Handle.tee } o).1⟩
 
-/-- **The caller's scheme is untouched** on every exit. -/
-theorem scheme_untouched (w : World α) (v r : Bool) (sch : Schedule α) :
-    (optimizeSM w v r sch).1.scheme = w.scheme := by
-  cases hi : init w v r with
-  | error e => simp [optimizeSM, hi]
+/-- **The caller's scheme is untouched** on every exit — in particular neither `__init__` (first
+    history record) nor `optimize` (start vector) refreshes the expression parameters of the caller's
+    `scheme.parameters` (D25, fixed: both read a private copy). -/
+theorem scheme_untouched (ops : ParamOps V R P) (w : World P) (v r : Bool) (sch : Schedule V) :
+    (optimizeSM ops w v r sch).1.scheme = w.scheme := by
+  unfold optimizeSM
+  rw [init_eq]
+  cases hi : initSpec ops w v r with
+  | error e => rfl
   | ok o =>
-    have h1 := optimize_frame w o sch
-    rcases ho : optimize w o sch with ⟨w1, o1, e⟩
-    rw [ho] at h1
+    have h1 := optimize_frame ops w o sch
+    have hne := optimize_hist_ne ops w o sch (initSpec_hist_ne ops w v r o hi)
+    rcases ho : optimize ops w o sch with ⟨w1, o1, e⟩
+    rw [ho] at h1 hne
     cases e with
     | some e =>
-      simp only [optimizeSM, hi, ho]
+      simp only [ho]
       exact h1.2
     | none =>
-      simp only [optimizeSM, hi, ho]
-      rw [(createResult_frame w1 o1 sch).2]
+      simp only [ho]
+      rw [(createResult_frame' ops w1 o1 sch hne).2]
       exact h1.2
 
-/-! ### 3. invalid schemes -/
+/-! ### 4. invalid schemes -/
 
 /-- **Schemes that cannot be optimised are rejected with the documented error before anything is
     evaluated** — whatever the schedule would have been: the outcome is the documented error
     (missing data → parameters → method → per dataset group: parameter labels, residual function)
     and the world is exactly the initial one (no evaluation, no warning, same `sys.stdout`). -/
-theorem invalid_rejected_before_eval (s : Scheme α) (out : Handle) (v r : Bool) (sch : Schedule α)
-    (e : Err) (h : documentedError s = some e) :
-    optimizeSM (World.fresh s out) v r sch = (World.fresh s out, .exception e) ∧
-    (optimizeSM (World.fresh s out) v r sch).1.evaluations = 0 := by
-  have hi := init_error (World.fresh s out) v r e h
+theorem invalid_rejected_before_eval (ops : ParamOps V R P) (s : Scheme P) (out : Handle) (v r : Bool)
+    (sch : Schedule V) (e : Err) (h : documentedError s = some e) :
+    optimizeSM ops (World.fresh s out) v r sch = (World.fresh s out, .exception e) ∧
+    (optimizeSM ops (World.fresh s out) v r sch).1.evaluations = 0 := by
+  have hi := initSpec_error ops (World.fresh s out) v r e h
   unfold optimizeSM
-  rw [hi]
+  rw [init_eq, hi]
   exact ⟨rfl, rfl⟩
 
 /-- the documented errors are the five validation classes, never a run-time one -/
-theorem documented_error_classes (s : Scheme α) (e : Err) (h : documentedError s = some e) :
-    e ≠ .initialParameter ∧ ∀ m, e ≠ .raised m := by
+theorem documented_error_classes (s : Scheme P) (e : Err) (h : documentedError s = some e) :
+    e ≠ .initialParameter ∧ (∀ m, e ≠ .raised m) ∧ ∀ m, e ≠ .internal m := by
   unfold documentedError at h
   split at h
   · cases h; simp
@@ -299,49 +593,84 @@ theorem documented_error_classes (s : Scheme α) (e : Err) (h : documentedError 
           · cases hg
           · cases hg; simp
 
-/-! ### 4. the history -/
+/-! ### 5. the history; where the result's penalties and data come from -/
 
-/-- **The history holds the initial record plus one record per evaluation that returned**: in every
-    `Result`, the evaluations that returned are exactly the history without its first record (the
-    initial parameters), followed by the final evaluation at the result parameters — so the
-    parameters of every `Result`, successful or not, have been evaluated without error. -/
-theorem history_only_successful (s : Scheme α) (p0 : α) (out : Handle) (v r : Bool) (sch : Schedule α)
-    (res : Result α) (hs : Accepted s p0)
-    (hr : (optimizeSM (World.fresh s out) v r sch).2 = .result res) :
-    (optimizeSM (World.fresh s out) v r sch).1.evaluatedOK
-        = res.parameterHistory.tail ++ [res.optimizedParameters] ∧
-    res.parameterHistory.head? = some p0 := by
-  rw [run_accepted s p0 out v r sch hs] at hr ⊢
-  have hinv : HistInv p0 (World.fresh s out) (o0 p0 out v r) := by simp [HistInv, o0, World.fresh]
-  have h1 := optimize_inv p0 _ _ sch hinv
-  rcases ho : optimize (World.fresh s out) (o0 p0 out v r) sch with ⟨w1, o1, e⟩
+private theorem result_shape (ops : ParamOps V R P) (s : Scheme P) (p0 : P) (out : Handle) (v r : Bool)
+    (sch : Schedule V) (res : Result R P) (hs : Accepted s p0)
+    (hr : (optimizeSM ops (World.fresh s out) v r sch).2 = .result res) :
+    ∃ E, (optimizeSM ops (World.fresh s out) v r sch).1.evaluatedOK = E ++ [res.optimizedParameters] ∧
+      res.parameterHistory = ops.row (ops.start p0) :: E.map (fun p => ops.row (ops.refresh p)) ∧
+      ∃ p, E.getLast? = some p ∧ res.optimizedParameters = ops.refresh p ∧ res.penaltyOf = some p ∧
+        res.dataOf = some res.optimizedParameters := by
+  rw [run_accepted ops s p0 out v r sch hs] at hr ⊢
+  have hinv : HistInv ops p0 (World.fresh s out) (o0 ops p0 out v r) := by simp [HistInv, o0, World.fresh]
+  have h1 := optimize_inv ops p0 _ _ sch hinv
+  rcases ho : optimize ops (World.fresh s out) (o0 ops p0 out v r) sch with ⟨w1, o1, e⟩
   rw [ho] at h1 hr
   simp only at h1
   cases e with
   | some e => simp at hr
   | none =>
     simp only at hr ⊢
+    have h0 : o1.history.length ≠ 0 := hist_ne ops p0 w1 o1 h1
+    rw [createResult_eq ops w1 o1 sch h0] at hr ⊢
     by_cases hlen : o1.history.length = 1
-    · simp [createResult, hlen] at hr
+    · simp [createResultSpec, hlen] at hr
     · cases hopt : o1.optimizationResult with
       | none =>
-        have hrest : HistInv p0 w1 (restore o1) := by
-          unfold restore
+        have hrest : HistInv ops p0 w1 (restoreSpec ops o1) := by
+          unfold restoreSpec
           split <;> simpa [HistInv] using h1
-        simp only [createResult, hlen, ↓reduceIte, hopt] at hr ⊢
-        exact buildResult_inv p0 w1 (restore o1) sch _ _ hrest res hr
+        simp only [createResultSpec, hlen, h0, ↓reduceIte, hopt] at hr ⊢
+        exact buildResultSpec_inv ops p0 w1 (restoreSpec ops o1) sch _ _ hrest res hr
       | some lr =>
         cases hcov : sch.covarianceFault with
-        | some m => simp [createResult, hlen, hopt, hcov] at hr
+        | some m => simp [createResultSpec, hlen, h0, hopt, hcov] at hr
         | none =>
-          simp only [createResult, hlen, ↓reduceIte, hopt, hcov] at hr ⊢
-          exact buildResult_inv p0 w1 _ sch _ _ (by simpa [HistInv] using h1) res hr
+          simp only [createResultSpec, hlen, h0, ↓reduceIte, hopt, hcov] at hr ⊢
+          exact buildResultSpec_inv ops p0 w1 _ sch _ _ (by simpa [HistInv] using h1) res hr
 
-/-! ### 5. `verbose` -/
+/-- **The history holds the initial record plus one record per evaluation that returned**: in every
+    `Result`, the evaluations that returned are the parameter sets `E` whose records are the history
+    without its first record (the record of the scheme's parameters), followed by the final
+    evaluation at the result parameters — so the parameters of every `Result`, successful or not,
+    have been evaluated without error. -/
+theorem history_only_successful (ops : ParamOps V R P) (s : Scheme P) (p0 : P) (out : Handle) (v r : Bool)
+    (sch : Schedule V) (res : Result R P) (hs : Accepted s p0)
+    (hr : (optimizeSM ops (World.fresh s out) v r sch).2 = .result res) :
+    ∃ E, (optimizeSM ops (World.fresh s out) v r sch).1.evaluatedOK = E ++ [res.optimizedParameters] ∧
+      res.parameterHistory = ops.row (ops.start p0) :: E.map (fun p => ops.row (ops.refresh p)) := by
+  obtain ⟨E, h1, h2, _⟩ := result_shape ops s p0 out v r sch res hs hr
+  exact ⟨E, h1, h2⟩
 
-private theorem init_verbose (w : World α) (v r : Bool) :
-    init w v r = (init w false r).map (·.setVerbose v) := by
-  unfold init
+/-- **Order of effects in `create_result`** (follows the regenerated table; fix d4abc29): in every
+    `Result`, successful or not, `additional_penalty` was read after the evaluation at the result's
+    own parameters (`p`, which the history record then refreshed into `optimized_parameters`) and
+    before anything else was evaluated, and the result data were computed from
+    `optimized_parameters`. -/
+theorem penalties_and_data_of_result_parameters (ops : ParamOps V R P) (s : Scheme P) (p0 : P)
+    (out : Handle) (v r : Bool) (sch : Schedule V) (res : Result R P) (hs : Accepted s p0)
+    (hr : (optimizeSM ops (World.fresh s out) v r sch).2 = .result res) :
+    ∃ p, res.penaltyOf = some p ∧ res.optimizedParameters = ops.refresh p ∧
+      res.dataOf = some res.optimizedParameters ∧
+      ops.row res.optimizedParameters ∈ res.parameterHistory.getLast? := by
+  obtain ⟨E, _, h2, p, hp, h3, h4, h5⟩ := result_shape ops s p0 out v r sch res hs hr
+  refine ⟨p, h4, h3, h5, ?_⟩
+  rw [h2, h3]
+  cases E with
+  | nil => simp at hp
+  | cons a as =>
+    rw [List.map_cons, List.getLast?_cons_cons]
+    have : (ops.row (ops.refresh a) :: List.map (fun p => ops.row (ops.refresh p)) as) =
+        List.map (fun p => ops.row (ops.refresh p)) (a :: as) := rfl
+    rw [this, List.getLast?_map, hp]
+    simp
+
+/-! ### 6. `verbose` -/
+
+private theorem initSpec_verbose (ops : ParamOps V R P) (w : World P) (v r : Bool) :
+    initSpec ops w v r = (initSpec ops w false r).map (·.setVerbose v) := by
+  unfold initSpec
   split
   · rfl
   · split
@@ -353,45 +682,256 @@ private theorem init_verbose (w : World α) (v r : Bool) :
         · rfl
 
 /-- **`verbose` changes nothing but what scipy prints**: same final world, same outcome. -/
-theorem verbose_irrelevant (w : World α) (v r : Bool) (sch : Schedule α) :
-    optimizeSM w v r sch = optimizeSM w false r sch := by
+theorem verbose_irrelevant (ops : ParamOps V R P) (w : World P) (v r : Bool) (sch : Schedule V) :
+    optimizeSM ops w v r sch = optimizeSM ops w false r sch := by
   unfold optimizeSM
-  rw [init_verbose w v r]
-  cases init w false r with
+  rw [init_eq, init_eq, initSpec_verbose ops w v r]
+  cases hi : initSpec ops w false r with
   | error e => rfl
   | ok o =>
-    simp only [Except.map, optimize_verbose]
-    rcases optimize w o sch with ⟨w1, o1, e⟩
+    have hne := optimize_hist_ne ops w o sch (initSpec_hist_ne ops w false r o hi)
+    simp only [Except.map, optimize_eq, optimizeSpec_verbose]
+    rw [optimize_eq] at hne
+    rcases ho : optimizeSpec ops w o sch with ⟨w1, o1, e⟩
+    rw [ho] at hne
     cases e with
     | some e => rfl
-    | none => simp only; rw [createResult_verbose]
+    | none =>
+      simp only at hne ⊢
+      rw [createResult_eq ops w1 (o1.setVerbose v) sch (by simpa [Optimizer.setVerbose] using hne),
+        createResult_eq ops w1 o1 sch hne, createResultSpec_verbose]
+
+/-! ### 7. the values: C11's parameter model inside the machine -/
+
+section Values
+open Glotaran.C11 (Parameter Ext Num Eval updateExpr)
+variable {α : Type}
+
+/-- the parameter sets whose records make up the history once the calls at `vs` have returned: the
+    (refreshed) initial parameters, then the parameter set of every returned call -/
+def recordedSets [Num α] (ev : Eval α) (ps0 : PSet α) (vs : List (Vec α)) : List (PSet α) :=
+  (paramOps ev (freeLabels ev ps0)).start ps0 ::
+    (paramOps ev (freeLabels ev ps0)).states ((paramOps ev (freeLabels ev ps0)).start ps0) vs
+
+private theorem histOf_recorded [Num α] (ev : Eval α) (ps0 : PSet α) (vs : List (Vec α)) :
+    histOf (paramOps ev (freeLabels ev ps0)) ps0 vs = (recordedSets ev ps0 vs).map rowOf := by
+  simp [histOf, recordedSets, paramOps]
+
+private theorem recorded_defn [Num α] (ev : Eval α) (ps0 : PSet α) (vs : List (Vec α)) (S : PSet α)
+    (h : S ∈ recordedSets ev ps0 vs) : S.map Parameter.defn = ps0.map Parameter.defn := by
+  simp only [recordedSets, List.mem_cons] at h
+  rcases h with rfl | h
+  · exact start_defn ev _ ps0
+  · rw [states_defn ev _ vs _ S h]
+    exact start_defn ev _ ps0
+
+private theorem cur_defn [Num α] (ev : Eval α) (ps0 : PSet α) (vs : List (Vec α)) (x : Vec α) :
+    (curOf (paramOps ev (freeLabels ev ps0)) ps0 vs x).map Parameter.defn = ps0.map Parameter.defn := by
+  simp only [curOf]
+  rw [show (paramOps ev (freeLabels ev ps0)).setFree = fun ps x => (C11.setFromArrays ev ps (freeLabels ev ps0) x).1 from rfl]
+  simp only
+  rw [setFromArrays_defn, last_defn]
+  exact start_defn ev _ ps0
+
+/-- **The restored parameter values are the record mapped back.**  `optimize()` over C11's parameter
+    model (values in optimiser space: non-negative parameters as logarithms), a fault injected at
+    evaluation `k` of the optimiser's own calls (`2 ≤ k ≤ |xs|`), `raise_exception=False`, labels
+    pairwise different.  Let `S` be the parameter set whose record is history record `k−2` — the
+    refreshed initial parameters (`k = 2`) or the parameter set of an objective call that returned
+    before the fault — and `cur` the optimizer's parameter set at the fault.  Then the unsuccessful
+    `Result` has
+    * record `k−2` restored: `Parameters.set_from_history` (C11 `setFromHistory`, on any history whose
+      row `k−2` is that record behind an iteration number) succeeds and assigns **every** parameter —
+      free, fixed, defined by an expression — `fromOpt` of its stored value (`roundTrip S`: `exp` of the
+      stored logarithm for a non-negative parameter, the stored value otherwise), then updates the
+      expressions;
+    * `optimized_parameters` = that parameter set after the update `calculate_penalty()`'s history
+      record runs once more;
+    * every label, bound, flag and expression *definition* as in the scheme (`defn`), and the value
+      of every parameter that is not defined by an expression exactly `fromOpt` of the record
+      (`plainPart`: the updates touch expression parameters only). -/
+theorem restored_parameters_are_record_mapped_back [Num α] (ev : Eval α) (s : Scheme (PSet α))
+    (ps0 : PSet α) (out : Handle) (v : Bool) (xs : List (Vec α)) (fin : LsqEnd (Vec α)) (k : Nat)
+    (msg : Msg) (hs : Accepted s ps0) (hN : (ps0.map (·.label)).Nodup) (h2 : 2 ≤ k) (hk : k ≤ xs.length) :
+    ∃ r S cur, (optimizeP ev s out v false (inject xs fin k msg)).2 = .result r ∧
+      r.success = false ∧ r.terminationReason = msg ∧ r.restoredRecord = some (k - 2) ∧
+      (recordedSets ev ps0 (xs.take (k - 1)))[k - 2]? = some S ∧
+      r.parameterHistory = (recordedSets ev ps0 (xs.take (k - 1))).map rowOf ++ [rowOf r.optimizedParameters] ∧
+      (∀ (rows : List (Vec α)) (it : Ext α), rows[k - 2]? = some (it :: rowOf S) →
+        C11.setFromHistory ev cur ⟨"iteration" :: cur.map (·.label), rows⟩ (k - 2)
+          = (updateExpr ev (roundTrip S), .ok)) ∧
+      r.optimizedParameters = updateExpr ev (updateExpr ev (roundTrip S)) ∧
+      r.optimizedParameters.map Parameter.defn = ps0.map Parameter.defn ∧
+      r.optimizedParameters.map Parameter.plainPart = (roundTrip S).map Parameter.plainPart := by
+  have hp : s.parameters.getD [] = ps0 := by rw [hs.2]; rfl
+  obtain ⟨x, _, r, rec, hr, hsucc, hreason, hrec, hopt, hrest, _, _, hhist, _, _, _⟩ :=
+    fault_contained_partial (paramOps ev (freeLabels ev ps0)) s ps0 out v xs fin k msg hs h2 hk
+  have hlen : (histOf (paramOps ev (freeLabels ev ps0)) ps0 (xs.take (k - 1))).length = k := by
+    rw [histOf_length, List.length_take]; omega
+  rw [hlen] at hrec hrest
+  rw [histOf_recorded, List.getElem?_map] at hrec
+  obtain ⟨S, hS, hSrec⟩ := Option.map_eq_some_iff.1 hrec
+  subst hSrec
+  have hSmem : S ∈ recordedSets ev ps0 (xs.take (k - 1)) := List.mem_of_getElem? hS
+  have hSd := recorded_defn ev ps0 _ S hSmem
+  have hcd := cur_defn ev ps0 (xs.take (k - 1)) x
+  have hcN : ((curOf (paramOps ev (freeLabels ev ps0)) ps0 (xs.take (k - 1)) x).map (·.label)).Nodup := by
+    rw [defn_labels _ _ hcd]; exact hN
+  obtain ⟨hfrom, hstatus⟩ := fromRow_rowOf ev (freeLabels ev ps0) _ S (hcd.trans hSd.symm) hcN
+  rw [hfrom] at hopt
+  have hopt' : r.optimizedParameters = updateExpr ev (updateExpr ev (roundTrip S)) := hopt
+  refine ⟨r, S, curOf (paramOps ev (freeLabels ev ps0)) ps0 (xs.take (k - 1)) x, ?_, hsucc, hreason, hrest,
+    hS, ?_, ?_, hopt', ?_, ?_⟩
+  · simpa [optimizeP, hp] using hr
+  · rw [hhist, histOf_recorded]; rfl
+  · intro rows it hrow
+    have hb := fromRow_eq_setFromHistory ev (freeLabels ev ps0)
+      (curOf (paramOps ev (freeLabels ev ps0)) ps0 (xs.take (k - 1)) x) rows (k - 2) it (rowOf S) hrow
+    have hst : (C11.setFromHistory ev (curOf (paramOps ev (freeLabels ev ps0)) ps0 (xs.take (k - 1)) x)
+        ⟨"iteration" :: (curOf (paramOps ev (freeLabels ev ps0)) ps0 (xs.take (k - 1)) x).map (·.label), rows⟩
+        (k - 2)).2 = .ok := by
+      simpa [C11.setFromHistory, List.getD_eq_getElem?_getD, hrow] using hstatus
+    rw [hfrom] at hb
+    exact Prod.ext hb.symm hst
+  · rw [hopt', updateExpr_defn, updateExpr_defn]
+    simp only [roundTrip, List.map_map]
+    rw [← hSd]
+    apply List.map_congr_left
+    intro p _
+    rfl
+  · rw [hopt', updateExpr_plainPart, updateExpr_plainPart]
+
+/-- **…and over ℝ they are the values of that evaluation, to C11's round-trip bound.**  Same run,
+    numbers real (`Real.log`, `Real.exp`).  For every parameter `p` of the recorded parameter set `S`
+    that is not defined by an expression — fixed parameters included — and, if non-negative, has a
+    positive value: the restored parameter at the same position has the same definition and **the
+    same value**, except at the guard of `_log_value`: a non-negative parameter whose value is exactly
+    1 comes back as `1 + 1e-10` (C11 `roundtrip_at_one`).  If no non-negative parameter sits at 1 and
+    the expressions of `S` are up to date (C12 `update_idempotent`), the restored parameter set **is**
+    `S`, expression parameters included. -/
+theorem restored_parameters_roundtrip_bound (ev : Eval ℝ) (s : Scheme (PSet ℝ)) (ps0 : PSet ℝ)
+    (out : Handle) (v : Bool) (xs : List (Vec ℝ)) (fin : LsqEnd (Vec ℝ)) (k : Nat) (msg : Msg)
+    (hs : Accepted s ps0) (hN : (ps0.map (·.label)).Nodup) (h2 : 2 ≤ k) (hk : k ≤ xs.length) :
+    ∃ r S, (optimizeP ev s out v false (inject xs fin k msg)).2 = .result r ∧
+      (recordedSets ev ps0 (xs.take (k - 1)))[k - 2]? = some S ∧
+      (∀ (i : Nat) (p : Parameter ℝ), S[i]? = some p → p.expr = none →
+        (p.nonNeg = true → ∃ x, p.value = .fin x ∧ 0 < x) →
+        ∃ p', r.optimizedParameters[i]? = some p' ∧ p'.defn = p.defn ∧
+          (p'.value = p.value ∨
+            (p.nonNeg = true ∧ p.value = .fin 1 ∧ p'.value = .fin (1 + 1 / 10000000000)))) ∧
+      ((∀ p ∈ S, p.nonNeg = false ∨ ∃ x, p.value = .fin x ∧ 0 < x ∧ x ≠ 1) → updateExpr ev S = S →
+        r.optimizedParameters = S) := by
+  obtain ⟨r, S, cur, hr, _, _, _, hS, _, _, hopt, _, hplain⟩ :=
+    restored_parameters_are_record_mapped_back ev s ps0 out v xs fin k msg hs hN h2 hk
+  refine ⟨r, S, hr, hS, ?_, ?_⟩
+  · intro i p hi hexpr hpos
+    have h1 := congrArg (fun l => l[i]?) hplain
+    simp only [List.getElem?_map, roundTrip, hi, Option.map_some] at h1
+    cases hq : r.optimizedParameters[i]? with
+    | none => simp [hq] at h1
+    | some p' =>
+      simp only [hq, Option.map_some, Option.some.injEq, Parameter.plainPart, Prod.mk.injEq] at h1
+      obtain ⟨hd, hv⟩ := h1
+      have hd' : p'.defn = p.defn := hd.trans (roundTripParam_defn p)
+      have hexpr' : p'.expr = none := by
+        have := hd'
+        simp only [Parameter.defn, Prod.mk.injEq] at this
+        rw [this.2.2.2.2.2.1]; exact hexpr
+      have hexpr'' : (roundTripParam p).expr = none := hexpr
+      simp only [hexpr', hexpr'', Option.isSome_none, Bool.false_eq_true, ↓reduceIte, Option.some.injEq] at hv
+      refine ⟨p', rfl, hd', ?_⟩
+      rw [hv]
+      exact roundTripParam_real_value p hpos
+  · intro hex hU
+    have : roundTrip S = S := by
+      simp only [roundTrip]
+      conv => rhs; rw [← List.map_id S]
+      apply List.map_congr_left
+      intro p hp
+      exact roundTripParam_real_exact p (hex p hp)
+    rw [hopt, this, hU, hU]
+
+end Values
 
 /-! ### non-vacuity: the hypotheses are met by concrete non-trivial runs -/
 
 private def s1 : Scheme Nat := ⟨[], some 0, "Levenberg-Marquardt",
   [⟨none, "variable_projection"⟩, ⟨none, "non_negative_least_squares"⟩]⟩
 
+private abbrev pl := ParamOps.plain Nat
+
 example : Accepted s1 0 := ⟨by decide, rfl⟩
 -- a contained fault at call 3 of 4: restored from record 1 (the vector of call 1), nfev 3
-example : (optimizeSM (World.fresh s1 (.user 1)) true false
+example : (optimizeSM pl (World.fresh s1 (.user 1)) true false
       (inject [0, 5, 6, 7] (.returns ⟨7, 2, "ok"⟩) 3 "boom")).2 =
-    .result ⟨false, "boom", 0, some 1, 3, [0, 0, 5, 0]⟩ := by decide
-example : Contained (optimizeSM (World.fresh s1 (.user 1)) true false
-      (inject [4, 5, 6, 7] (.returns ⟨7, 2, "ok"⟩) 4 "boom")) "boom" (0 :: [4, 5, 6, 7].take 3) :=
-  fault_contained_partial s1 0 (.user 1) true [4, 5, 6, 7] _ 4 "boom" ⟨by decide, rfl⟩ (by decide) (by decide)
+    .result ⟨false, "boom", 0, some 1, 3, [0, 0, 5, 0], some 0, some 0⟩ := by decide
+example : ∃ x, Contained pl (optimizeSM pl (World.fresh s1 (.user 1)) true false
+      (inject [4, 5, 6, 7] (.returns ⟨7, 2, "ok"⟩) 4 "boom")) "boom" (histOf pl 0 ([4, 5, 6, 7].take 3)) x := by
+  obtain ⟨x, _, h⟩ := fault_contained_partial pl s1 0 (.user 1) true [4, 5, 6, 7] (.returns ⟨7, 2, "ok"⟩) 4 "boom"
+    ⟨by decide, rfl⟩ (by decide) (by decide)
+  exact ⟨x, h⟩
 -- fault at the first call; raise_exception=True; least_squares raising by itself
-example : (optimizeSM (World.fresh s1 (.user 1)) false false
+example : (optimizeSM pl (World.fresh s1 (.user 1)) false false
       (inject [0, 5] (.returns ⟨5, 2, "ok"⟩) 1 "boom")).2 = .exception .initialParameter := by decide
-example : (optimizeSM (World.fresh s1 (.user 1)) false true
+example : (optimizeSM pl (World.fresh s1 (.user 1)) false true
       (inject [0, 5, 6] (.returns ⟨5, 2, "ok"⟩) 2 "boom")).2 = .exception (.raised "boom") := by decide
-example : (optimizeSM (World.fresh s1 (.user 1)) false false
+example : (optimizeSM pl (World.fresh s1 (.user 1)) false false
       (inject [0, 5] (.raises "Residuals are not finite") 0 "unused")).2 =
-    .result ⟨false, "Residuals are not finite", 0, some 1, 3, [0, 0, 5, 0]⟩ := by decide
+    .result ⟨false, "Residuals are not finite", 0, some 1, 3, [0, 0, 5, 0], some 0, some 0⟩ := by decide
 -- the fault-free run
-example : (optimizeSM (World.fresh s1 (.user 1)) false false
+example : (optimizeSM pl (World.fresh s1 (.user 1)) false false
       (inject [0, 5, 6] (.returns ⟨6, 2, "ok"⟩) 0 "unused")) =
     ({ stdout := .user 1, warnings := [], scheme := s1, evaluations := 5, evaluatedOK := [0, 5, 6, 6, 6] },
-     .result ⟨true, "ok", 6, none, 2, [0, 0, 5, 6, 6]⟩) := by decide
+     .result ⟨true, "ok", 6, none, 2, [0, 0, 5, 6, 6], some 6, some 6⟩) := by decide
+-- the characterisation: positions 1..6 of a run with four optimiser calls
+example : ((List.range 7).map fun k => match (optimizeSM pl (World.fresh s1 (.user 1)) false false
+      (inject [0, 5, 6, 7] (.returns ⟨7, 2, "ok"⟩) k "boom")).2 with
+    | .result r => if r.success then "success" else "contained"
+    | .exception .initialParameter => "InitialParameterError"
+    | .exception (.raised m) => m
+    | .exception _ => "?") =
+    ["success", "InitialParameterError", "contained", "contained", "contained", "boom", "boom"] := by decide
+-- numpy's SVD failing on the returned Jacobian escapes; `firstLate` orders the late faults
+example : (optimizeSM pl (World.fresh s1 (.user 1)) false false
+      { calls := [⟨0, none⟩, ⟨5, none⟩], finish := .returns ⟨5, 2, "ok"⟩, penaltyFault := some "penalty",
+        finalFault := none, covarianceFault := some "SVD did not converge", dataFault := some "data" }).2 =
+    .exception (.raised "SVD did not converge") := by decide
+-- the values (term algebra): three parameters — `k` free and non-negative, `f` fixed and non-negative, `a` free —,
+-- fault at call 3 of 3: record 1 (the call at x = [3, 4]) is restored; `k` comes back as
+-- exp(log(exp 3)) (with the guard of `_log_value`), the fixed `f` as exp(log 5), `a` as stored
+private def psT : PSet C11.Term :=
+  [⟨"k", .fin (.q 2), .ninf, .pinf, true, true, none, .nan⟩,
+   ⟨"f", .fin (.q 5), .ninf, .pinf, true, false, none, .nan⟩,
+   ⟨"a", .fin (.q 3), .ninf, .pinf, false, true, none, .nan⟩]
+private def sT : Scheme (PSet C11.Term) := ⟨[], some psT, "Dogbox", [⟨none, "variable_projection"⟩]⟩
+
+example : (match (optimizeP (fun _ _ => .nan) sT (.user 1) false false
+      (inject [[.fin (.q 3), .fin (.q 4)], [.fin (.q 1), .fin (.q 6)], [.fin (.q 7), .fin (.q 8)]]
+        (.returns ⟨[.fin (.q 1), .fin (.q 6)], 3, "ok"⟩) 3 "boom")).2 with
+    | .result r => some (r.restoredRecord, r.optimizedParameters.map (·.value))
+    | _ => none) =
+    some (some 1,
+      [.fin (.exp (.log (.ifEq (.exp (.q 3)) (.q 1) (.add (.exp (.q 3)) (.q C11.eps)) (.exp (.q 3))))),
+       .fin (.exp (.log (.ifEq (.q 5) (.q 1) (.add (.q 5) (.q C11.eps)) (.q 5)))),
+       .fin (.q 4)]) := by decide +kernel
+
+-- the hypotheses of the two value theorems over ℝ are satisfiable; the fixed non-negative `f` sits
+-- exactly at the guard value 1
+private noncomputable def psR : PSet ℝ :=
+  [⟨"k", .fin 2, .ninf, .pinf, true, true, none, .nan⟩,
+   ⟨"f", .fin 1, .ninf, .pinf, true, false, none, .nan⟩,
+   ⟨"a", .fin 3, .ninf, .pinf, false, true, none, .nan⟩]
+private noncomputable def sR : Scheme (PSet ℝ) := ⟨[], some psR, "Dogbox", [⟨none, "variable_projection"⟩]⟩
+
+example : ∃ r S, (optimizeP (fun _ _ => .nan) sR (.user 1) false false
+      (inject [[.fin 3, .fin 4], [.fin 1, .fin 6], [.fin 7, .fin 8]] (.returns ⟨[.fin 1, .fin 6], 3, "ok"⟩) 3 "boom")).2
+      = .result r ∧ (recordedSets (fun _ _ => .nan) psR ([[.fin 3, .fin 4], [.fin 1, .fin 6], [.fin 7, .fin 8]].take 2))[1]? = some S := by
+  obtain ⟨r, S, h1, h2, _⟩ := restored_parameters_roundtrip_bound (fun _ _ => .nan) sR psR (.user 1) false
+    [[.fin 3, .fin 4], [.fin 1, .fin 6], [.fin 7, .fin 8]] (.returns ⟨[.fin 1, .fin 6], 3, "ok"⟩) 3 "boom"
+    ⟨by simp [documentedError, sR, Generated.supportedMethods, groupProblem, Generated.supportedResidualFunctions], rfl⟩
+    (by simp [psR]) (by decide) (by decide)
+  exact ⟨r, S, h1, h2⟩
+
 -- every documented error occurs, in the documented order
 example : documentedError (⟨["d1"], none, "x", [⟨some "k.1", "y"⟩]⟩ : Scheme Nat)
     = some (.missingDatasets ["d1"]) := by decide
